@@ -98,12 +98,20 @@ def run_job(args):
             # a model of the path condition with moderate magnitudes (only
             # to pick the concrete validation run; the claim is unaffected)
             import z3
-            rng = [z3.And(t >= -6, t <= 6) for _, t in e.inputs + e.apps
-                   if z3.is_real(t)]
-            r, m = e._check(z3.And(*rng) if rng else None)
-            if r != 'sat':
-                r, m = e._check()
-            if r == 'sat':
+            m = None
+            try:
+                m = E.realistic_model(e)
+            except z3.Z3Exception:
+                m = None
+            if m is None:
+                rng = [z3.And(t >= -6, t <= 6) for _, t in e.inputs + e.apps
+                       if z3.is_real(t)]
+                r, m = e._check(z3.And(*rng) if rng else None)
+                if r != 'sat':
+                    r, m = e._check()
+                if r != 'sat':
+                    m = None
+            if m is not None:
                 path_models.append(e.model_dict(m))
 
     try:
